@@ -610,6 +610,30 @@ def m_str_encode(ex, d, args, kwargs, st, sink, node):
         raise Unsupported(f"encode({enc!r})")
 
 
+isdigits = z3.Function("isdigits", z3.StringSort(), z3.BoolSort())     # str/bytes.isdigit(): non-empty and decimal digits only
+
+
+def ax_isdigits(t):
+    x = t.arg(0)
+    bad = ["-", "+", " ", "_", ".", "\n"]
+    return [z3.Implies(t, z3.And(z3.Length(x) > 0, *[z3.Not(z3.Contains(x, z3.StringVal(c))) for c in bad]))]
+
+
+ax_isdigits.names = ["isdigits"]
+PROVIDERS.append(ax_isdigits)
+
+
+def m_isdigit(ex, d, args, kwargs, st, sink, node):
+    lit = z3.simplify(d.recv.v)
+    if z3.is_string_value(lit):
+        yield st, mk_bool(lit.as_string().isdigit())
+    else:
+        yield st, mk_bool(isdigits(d.recv.v))
+
+
+ascii_ok = z3.Function("ascii_ok", z3.StringSort(), z3.BoolSort())     # every byte < 0x80 (uninterpreted: some byte strings are, some are not)
+
+
 def m_bytes_decode(ex, d, args, kwargs, st, sink, node):
     enc = z3.simplify(args[0].v).as_string() if args else "utf-8"
     b = d.recv.v
@@ -632,6 +656,18 @@ def m_bytes_decode(ex, d, args, kwargs, st, sink, node):
                 ex.raise_(s2, sink, "UnicodeDecodeError", origin=f"decode('utf-8') line {getattr(node, 'lineno', '?')}")
     elif enc == "latin-1":
         yield st, mk_str(latin1(b))
+    elif enc in ("ascii", "us-ascii"):
+        # the same code points as text, provided every byte is below 0x80; UnicodeDecodeError otherwise
+        lit = z3.simplify(b)
+        if z3.is_string_value(lit):
+            okc = z3.BoolVal(all(ord(ch) < 128 for ch in lit.as_string()))
+        else:
+            okc = ascii_ok(b)
+        for s2, ok in ex.fork(st, okc):
+            if ok:
+                yield s2, mk_str(b)
+            else:
+                ex.raise_(s2, sink, "UnicodeDecodeError", origin=f"decode('ascii') line {getattr(node, 'lineno', '?')}")
     else:
         raise Unsupported(f"decode({enc!r})")
 
@@ -715,7 +751,7 @@ for _n in ("builtins.min", "builtins.max", "builtins.set", "struct.pack", "struc
 
 
 # the number of positional arguments each model understands: a call with more (str.find(sub, start), list.pop(i, ...)) is outside the model
-METHOD_MAX_ARGS = {("seq", "extend"): 1, ("seq", "append"): 1, ("seq", "pop"): 1, ("seq", "remove"): 1, ("str", "find"): 1, ("bytes", "find"): 1, ("str", "rfind"): 1, ("bytes", "rfind"): 1, ("str", "startswith"): 1, ("bytes", "startswith"): 1,
+METHOD_MAX_ARGS = {("bytes", "isdigit"): 0, ("str", "isdigit"): 0, ("seq", "extend"): 1, ("seq", "append"): 1, ("seq", "pop"): 1, ("seq", "remove"): 1, ("str", "find"): 1, ("bytes", "find"): 1, ("str", "rfind"): 1, ("bytes", "rfind"): 1, ("str", "startswith"): 1, ("bytes", "startswith"): 1,
                    ("str", "endswith"): 1, ("str", "encode"): 2, ("bytes", "decode"): 2, ("str", "rstrip"): 1, ("bytes", "join"): 1, ("str", "join"): 1, ("map", "get"): 2, ("map", "pop"): 2,
                    ("set", "add"): 1, ("set", "remove"): 1}
 
@@ -730,6 +766,8 @@ METHODS = {
     ("bytes", "rfind"): m_str_rfind,
     ("str", "startswith"): m_str_startswith,
     ("bytes", "startswith"): m_str_startswith,
+    ("bytes", "isdigit"): m_isdigit,
+    ("str", "isdigit"): m_isdigit,
     ("str", "endswith"): m_str_endswith,
     ("str", "encode"): m_str_encode,
     ("bytes", "decode"): m_bytes_decode,
